@@ -113,6 +113,34 @@ pub fn check(c: &ColourCase, info: &mut CaseInfo) -> Result<(), String> {
             if got != (val & mask) {
                 return Err(format!("colour {:#x} sent as a solid fill is decoded by the controller as {:#x}", val, got));
             }
+            drop(wb);
+            // a solid fill after intervening streamed traffic must encode the colour the same way
+            // (the fill before and the one after use the same value; the stream in between
+            // overwrites whatever the transport staged)
+            if i % 8 == 0 {
+                let other = (val ^ 0x2a5) & mask;
+                d.set_pixel(i as u16, 0, other).map_err(|e| format!("set_pixel failed: {:?}", e))?;
+                d.fill_solid(&Rect { x: 0, y: 0, w: (i + 1).min(3), h: 1 }, val).map_err(|e| format!("fill_solid failed: {:?}", e))?;
+                let wb = w.borrow();
+                for x in 0..(i + 1).min(3) {
+                    let got = wb.panel.mem.get(x, 0);
+                    if got != (val & mask) {
+                        return Err(format!(
+                            "colour {:#x}: solid fill, streamed pixel, then the same solid fill again: the second fill is decoded as {:#x}",
+                            val, got
+                        ));
+                    }
+                }
+                drop(wb);
+                // restore the cells for the bookkeeping below
+                for x in 0..(i + 1).min(3) {
+                    d.set_pixel(x as u16, 0, (v + x) & mask).map_err(|e| format!("set_pixel failed: {:?}", e))?;
+                }
+                d.set_pixel(i as u16, 0, val).map_err(|e| format!("set_pixel failed: {:?}", e))?;
+                w.borrow_mut().raw.clear();
+                d.fill_solid(&Rect { x: i as i32, y: 0, w: 1, h: 1 }, val).map_err(|e| format!("fill_solid failed: {:?}", e))?;
+            }
+            let wb = w.borrow();
             if raw_level {
                 let rep: Vec<&Vec<u16>> = wb.raw.iter().filter_map(|r| if let Raw::IfaceRepeat { pixel, .. } = r { Some(pixel) } else { None }).collect();
                 if rep.len() != 1 || *rep[0] != stream_words[i as usize] {
